@@ -13,6 +13,8 @@ import (
 	"go/ast"
 	"go/token"
 	"go/types"
+	"strconv"
+	"strings"
 )
 
 func (c *Ctx) runShortCircuitConst(r *Report, rule string, pkgs func(string) bool) {
@@ -184,3 +186,123 @@ func init() {
 		}
 	}
 }
+
+// fold.step (C06): WGSL step(edge, x) is 1.0 when edge <= x, so at x == edge the
+// answer is 1.0. In a case clause for ir.MathStep of a constant folder, the
+// function literal that compares its two float parameters is evaluated at
+// equality: the comparison's truth value there selects the then- or the
+// fall-through return, and the selected literal must be 1.0.
+func (c *Ctx) runFoldStep(r *Report, rule string, pkgs func(string) bool) {
+	n := 0
+	for _, fn := range c.allFuncs() {
+		if !pkgs(fn.Pkg.Rel) {
+			continue
+		}
+		info := fn.Pkg.Info
+		ast.Inspect(fn.Decl.Body, func(m ast.Node) bool {
+			cc, ok := m.(*ast.CaseClause)
+			if !ok {
+				return true
+			}
+			isStep := false
+			for _, l := range cc.List {
+				if irConstName(info, l) == "MathStep" && len(cc.List) == 1 {
+					isStep = true
+				}
+			}
+			if !isStep {
+				return true
+			}
+			ast.Inspect(cc, func(k ast.Node) bool {
+				lit, ok := k.(*ast.FuncLit)
+				if !ok || lit.Type.Params == nil {
+					return true
+				}
+				var params []types.Object
+				for _, f := range lit.Type.Params.List {
+					for _, nm := range f.Names {
+						params = append(params, info.Defs[nm])
+					}
+				}
+				if len(params) != 2 {
+					return true
+				}
+				// if <cmp(p0,p1)> { return A }; return B
+				for i, st := range lit.Body.List {
+					ifs, ok := st.(*ast.IfStmt)
+					if !ok || ifs.Else != nil || len(ifs.Body.List) != 1 || i+1 >= len(lit.Body.List) {
+						continue
+					}
+					be, ok := ast.Unparen(ifs.Cond).(*ast.BinaryExpr)
+					if !ok {
+						continue
+					}
+					xi, ok1 := ast.Unparen(be.X).(*ast.Ident)
+					yi, ok2 := ast.Unparen(be.Y).(*ast.Ident)
+					if !ok1 || !ok2 {
+						continue
+					}
+					xo, yo := info.Uses[xi], info.Uses[yi]
+					if !((xo == params[0] && yo == params[1]) || (xo == params[1] && yo == params[0])) {
+						continue
+					}
+					var atEq bool
+					switch be.Op {
+					case token.LEQ, token.GEQ, token.EQL:
+						atEq = true
+					case token.LSS, token.GTR, token.NEQ:
+						atEq = false
+					default:
+						continue
+					}
+					retVal := func(s ast.Stmt) (float64, bool) {
+						rs, ok := s.(*ast.ReturnStmt)
+						if !ok || len(rs.Results) != 1 {
+							return 0, false
+						}
+						tv, ok := info.Types[rs.Results[0]]
+						if !ok || tv.Value == nil {
+							return 0, false
+						}
+						f, _ := strconvParseFloat(tv.Value.ExactString())
+						return f, true
+					}
+					thenV, okT := retVal(ifs.Body.List[0])
+					elseV, okE := retVal(lit.Body.List[i+1])
+					if !okT || !okE {
+						continue
+					}
+					n++
+					cons := fn.id() + ":MathStep"
+					got := elseV
+					if atEq {
+						got = thenV
+					}
+					if got == 1 {
+						r.ok(rule, cons, c.pos(ifs.Pos()), "")
+					} else {
+						r.viol(rule, cons, c.pos(ifs.Pos()), fn.id()+" folds step(edge, x) so that x == edge yields "+types.ExprString(ifs.Cond)+" -> "+strconvFormat(got)+"; WGSL defines step(edge, x) = 1.0 for edge <= x, i.e. 1.0 at equality")
+					}
+				}
+				return true
+			})
+			return true
+		})
+	}
+	r.inst("fold.step", n)
+}
+
+func strconvParseFloat(s string) (float64, error) {
+	// exact strings of constants may be fractions "1/2"
+	if i := strings.Index(s, "/"); i > 0 {
+		a, err1 := strconv.ParseFloat(s[:i], 64)
+		b, err2 := strconv.ParseFloat(s[i+1:], 64)
+		if err1 != nil || err2 != nil || b == 0 {
+			return 0, err1
+		}
+		return a / b, nil
+	}
+	return strconv.ParseFloat(s, 64)
+}
+
+func strconvFormat(f float64) string { return strconv.FormatFloat(f, 'g', -1, 64) }
